@@ -60,7 +60,11 @@ Definition xy_select (rx ry x y p : Z) : Z :=
 Definition xy_masked (inp out : Z) : bool :=
   ((inp =? 2) || (inp =? 0)) && ((out =? 1) || (out =? 3)).
 
-Definition select (r : rt_inst) (h : hdr) : res (Z * hdr) :=
+(* identifiers, coordinates and route words live in fixed-width fields of the flit header and of
+   the id_i / table parameters: a value that does not fit is truncated by the hardware *)
+Definition trunc (b v : Z) : Z := v mod 2 ^ b.
+
+Definition select (n : netlist) (r : rt_inst) (h : hdr) : res (Z * hdr) :=
   match h with
   | HId d =>
       match r_map r with
@@ -76,9 +80,9 @@ Definition select (r : rt_inst) (h : hdr) : res (Z * hdr) :=
       let b := clog2 (r_nout r) in
       Ok (w mod 2 ^ b, HRoute (w / 2 ^ b))
   | HXY x y p =>
-      match r_id r with
-      | Some (IdXY rx ry _) => Ok (xy_select rx ry x y p, h)
-      | _ => Err "router has no XY id"
+      match r_id r, n_xy_bits n with
+      | Some (IdXY rx ry _), Some (xb, (yb, _)) => Ok (xy_select (trunc xb rx) (trunc yb ry) x y p, h)
+      | _, _ => Err "router has no XY id"
       end
   end.
 
@@ -110,7 +114,7 @@ Fixpoint walk (fuel : nat) (n : netlist) (nt : net) (cur : uref) (h : hdr)
           match find_rt n rn with
           | None => fail "unknown router" rn
           | Some r =>
-              match select r h with
+              match select n r h with
               | Err e => fail e rn
               | Ok (p, h') =>
                   if p <? 0 then fail "negative port" rn
@@ -148,8 +152,17 @@ Definition send (n : netlist) (nt : net) (x : ni_inst) (h : hdr) : trace :=
 Definition sam_matches (r : sam_rule) (a : Z) : bool := (sr_start r <=? a) && (a <? sr_end r).
 Definition sam_decode (n : netlist) (a : Z) : list sam_rule := filter (fun r => sam_matches r a) (n_sam n).
 
-Definition hdr_of_id (i : idv) : hdr :=
-  match i with IdN d => HId d | IdXY x y p => HXY x y p end.
+Definition hdr_of_id (n : netlist) (i : idv) : hdr :=
+  match i with
+  | IdN d => HId (match n_id_bits n with Some b => trunc b d | None => d end)
+  | IdXY x y p =>
+      match n_xy_bits n with
+      | Some (xb, (yb, pb)) => HXY (trunc xb x) (trunc yb y) (trunc pb p)
+      | None => HXY x y p
+      end
+  end.
+Definition hdr_of_word (n : netlist) (w : Z) : hdr :=
+  HRoute (match n_route_bits n with Some b => trunc b w | None => w end).
 
 (* ---------------------------------------------------------------- source-route tables *)
 (* RoutingTables[v][d]: a '{...} literal lists index N-1 first *)
